@@ -23,7 +23,7 @@ NAME = "H"
 PROPERTY = "C12"
 RUNS = {"quick": 220, "thorough": 5000}
 RUN_WALL_CAP = 300.0
-REQUIRED_PROBES = {"quick": ["kets_list", "density_list", "hierarchy_not_last", "hierarchy_then_ppt", "level2", "dims_2x3", "complex_states", "bell_list", "primal_value", "local_unitary_checked", "two_lists_same_shape", "same_ensemble_parties_swapped"], "thorough": ["kets_list", "density_list", "hierarchy_not_last", "hierarchy_then_ppt", "level2", "level2_2x3", "dims_2x3", "complex_states", "bell_list", "primal_value", "local_unitary_checked"]}
+REQUIRED_PROBES = {"quick": ["kets_list", "density_list", "hierarchy_not_last", "hierarchy_then_ppt", "level2", "dims_2x3", "complex_states", "bell_list", "primal_value", "local_unitary_checked", "two_lists_same_shape", "same_ensemble_parties_swapped", "same_ensemble_other_order", "same_array_object_twice"], "thorough": ["kets_list", "density_list", "hierarchy_not_last", "hierarchy_then_ppt", "level2", "level2_2x3", "dims_2x3", "complex_states", "bell_list", "primal_value", "local_unitary_checked"]}
 COMPONENTS = {"real": ["toqito.state_opt.ppt_distinguishability (primal and dual)", "toqito.state_opt.symmetric_extension_hierarchy", "toqito.state_opt.state_distinguishability", "toqito.channels.partial_trace / partial_transpose (cvxpy branch)", "toqito.perms.symmetric_projection", "picos + cvxopt, cvxpy + SCS/Clarabel"], "stub": []}
 RULE = ("one run = one caller-owned list of 2..4 states on 2x2, 2x3 or 3x2, sometimes with a second list used in between (same shape, another shape, or the same ensemble with the two parties written in the other order) (column kets / density matrices / 1-D vectors where accepted; real and complex; arbitrary prior; or the four Bell kets) reused by 3..6 calls in seeded order: "
         "ppt_distinguishability (party 0 or 1, primal or dual), symmetric_extension_hierarchy (level 1 or 2, dim as list / scalar / omitted), state_distinguishability; "
@@ -180,6 +180,14 @@ def run(cs, tier, run_index):
         res.probe("dims_3x2")
     if meta["complex"]:
         res.probe("complex_states")
+    if meta["kind"] in ("kets", "density") and len(L) <= 3 and cs.s("config:dup").draw(6) == 0:
+        # the caller may list the same array object twice (two equal states with separate priors)
+        L.append(L[0])
+        if probs is not None:
+            probs = [p * (1 - 0.2) for p in probs] + [0.2]
+        meta["n"] = len(L)
+        meta["duplicate_object"] = True
+        res.probe("same_array_object_twice")
     pristine_src = [np.array(x, copy=True) for x in L]
     probs_shadow = None if probs is None else list(probs)
     snap = snapshot(L)
@@ -205,6 +213,15 @@ def run(cs, tier, run_index):
         dims2 = dims[::-1]
         swapped = True
         res.probe("same_ensemble_parties_swapped")
+    elif len(L) >= 2 and (cs.s("config:two").draw(4) == 3 or run_index % 8 == 5):
+        # the same ensemble with the states (and their priors) listed in another order: an ensemble is a set
+        perm = list(range(len(L)))
+        j = 1 + cs.s("config:two").draw(len(L) - 1)
+        perm = perm[j:] + perm[:j]
+        L2 = [np.array(L[i], copy=True) for i in perm]
+        probs2 = None if probs is None else [probs[i] for i in perm]
+        swapped = "permuted"
+        res.probe("same_ensemble_other_order")
     elif cs.s("config:two").draw(3) == 2 or run_index % 8 == 7:
         same = cs.s("config:two").draw(3) != 0
         L2, probs2, dims2, _ = draw_states(cs.s("states:2"), -1, like=meta if same else None)
@@ -217,9 +234,9 @@ def run(cs, tier, run_index):
         other = None
         if L2 is not None and cs.s("ops:which").draw(2) and not (meta["kind"] == "vec1d" and op["op"] == "seh"):
             op2 = dict(op)
-            if swapped and op["op"] == "ppt":
+            if swapped is True and op["op"] == "ppt":
                 op2["party"] = 1 - op["party"]
-            if swapped and op["op"] == "seh" and op["dim"] == "omitted":
+            if swapped is True and op["op"] == "seh" and op["dim"] == "omitted":
                 op2["dim"] = "list"
             other = call_value(op_fn(lib, L2, probs2, dims2, op2), res, op["op"] + "(other list)")
         out = call_value(op_fn(lib, L, probs, dims, op), res, op["op"] + ("_" + op["form"] if op["op"] == "ppt" else ""))
@@ -242,7 +259,10 @@ def run(cs, tier, run_index):
         if swapped and other is not None and other[0] == "ok":
             res.checks_workload += 1
             if abs(other[1] - v) > TAU:
-                res.violate("C12.val.party", why="the same ensemble with the parties written in the other order gives another value", op=op, value=v, parties_swapped=other[1], **meta)
+                if swapped == "permuted":
+                    res.violate("C12.val.ensemble_order", why="the same ensemble with its states (and priors) listed in another order gives another value", op=op, value=v, other_order=other[1], **meta)
+                else:
+                    res.violate("C12.val.party", why="the same ensemble with the parties written in the other order gives another value", op=op, value=v, parties_swapped=other[1], **meta)
         if k == 0:
             pristine[key] = v
         else:
